@@ -49,6 +49,7 @@ type Program struct {
 	fg        map[*ssa.Function]*funcGuards
 	entryMemo map[*ssa.Function][]Lit
 	entryBusy map[*ssa.Function]bool
+	boolSums  map[*ssa.Function]*boolSum
 }
 
 type descKey struct {
